@@ -58,6 +58,8 @@ def record(args):
         n = lo + int(rng.choice([0, 0, 1, 2, 3, 7, 15, 30]))
         kind = int(rng.integers(0, 7))
         X = lattice_data(rng, max(n, 1), p, kind=kind)
+        if np.all(X == np.round(X)) and rng.integers(0, 3) == 0:
+            X = X.astype(np.int64)       # integer-typed input is valid input
         rid = f"w-{seed}-{i}"
         try:
             det = cls(**params).fit(X)
